@@ -5,6 +5,7 @@
 //! `<dir>/<property>.<i>.impl` (what the real lace code did on the same case), plus
 //! `<dir>/<property>.<i>.stats` (JSON: distribution of what was generated).
 mod cap;
+mod cmd;
 mod prng;
 mod vm;
 
@@ -84,6 +85,7 @@ fn main() {
     let o = parse_opts();
     match o.prop.as_str() {
         "C02" => vm::run(&o),
+        "C14" => cmd::run(&o),
         other => {
             eprintln!("unknown property {other}");
             std::process::exit(2);
